@@ -85,6 +85,8 @@ def corpus():
         reqs.reshaper({P(1): (5, {'DISK_GB': {'total': 10}}), P(3): (0, {'VCPU': {'total': 8}})},
                       {K(1): {'allocs': {P(3): {'VCPU': 1}, P(1): {'DISK_GB': 2}}, 'cgen': 1}}),
         ok=False)
+    add('reshaper without allocations, two providers', base,
+        reqs.reshaper({P(1): (3, {'VCPU': four}), P(3): (0, {'DISK_GB': {'total': 10}})}, {}))
     add('PUT inventories add/update/delete classes', base,
         reqs.put_invs(P(1), 3, {'VCPU': {'total': 8}, 'MEMORY_MB': {'total': 64}}))
     add('PUT inventories rejected: in use', used,
